@@ -52,6 +52,12 @@ class Scratch:
 # --------------------------------------------------------------------------
 # building the implementation under test from /repo's working tree
 # --------------------------------------------------------------------------
+def limit_files():
+    """a run-away implementation under test must not fill the disk with trace output (SIGXFSZ = crash)"""
+    import resource
+    resource.setrlimit(resource.RLIMIT_FSIZE, (1 << 30, 1 << 30))
+
+
 class Build:
     def __init__(self, path):
         self.path = path
@@ -81,7 +87,7 @@ class Build:
         c = self.cmd(*args)
         if noaslr:
             c = ["setarch", "-R"] + c
-        return subprocess.run(c, env=self.env(env), timeout=timeout, input=stdin,
+        return subprocess.run(c, env=self.env(env), timeout=timeout, input=stdin, preexec_fn=limit_files,
                               stdout=subprocess.PIPE, stderr=subprocess.PIPE, cwd=cwd or REPO)
 
 
@@ -93,8 +99,12 @@ def build_repo(dest, cflags="", verif=True, targets=("chibi-scheme", "chibi-comp
                         "-DCMAKE_C_FLAGS=" + flags], stdout=subprocess.PIPE, stderr=subprocess.STDOUT)
     if r.returncode != 0:
         raise Broken("cmake configure failed:\n" + r.stdout.decode(errors="replace")[-2000:])
-    r = subprocess.run(["ninja", "-C", dest] + (["-j", str(jobs)] if jobs else []) + list(targets),
-                       stdout=subprocess.PIPE, stderr=subprocess.STDOUT)
+    try:
+        r = subprocess.run(["ninja", "-C", dest] + (["-j", str(jobs)] if jobs else []) + list(targets),
+                           stdout=subprocess.PIPE, stderr=subprocess.STDOUT, timeout=1500)
+    except subprocess.TimeoutExpired:
+        subprocess.run(["pkill", "-9", "-f", dest + "/chibi-scheme"])
+        raise Broken("build of /repo did not finish within 25 min (the interpreter runs during the build: it probably hangs)")
     if r.returncode != 0:
         raise Broken("build of /repo failed:\n" + r.stdout.decode(errors="replace")[-3000:])
     b = Build(dest)
